@@ -174,7 +174,8 @@ class C05(BridgeProp):
         return clause.startswith("C05:") or clause == "C07:exactly-one-callback-per-valid-broadcast"
 
     def mc_runs(self, ctx):
-        return [{"module": "MC_Datagram"}, {"module": "Switcher", "cfg": "Switcher.cfg"}]
+        deep = [] if ctx.quick else [{"module": "Switcher", "cfg": "SwitcherDeep.cfg", "timeout": 1800}]
+        return [{"module": "MC_Datagram"}, {"module": "Switcher", "cfg": "Switcher.cfg"}] + deep
 
     def replay_phase(self, ctx):
         from .client import e2e_phase
